@@ -373,7 +373,7 @@ def run(ctx):
     ctx.log('observed transitions: %d' % len(obs))
 
     # ---- 6. TLC judges every observed transition (code -> model) ----------------------
-    keep = ('a', 's', 't', 'w', 'run', 'same', 'read', 'extra_s', 'extra_t')
+    keep = ('a', 's', 't', 'w', 'run', 'same', 'read', 'extra_s', 'extra_t', 'posted')
     verdicts = {}
     chunk = 40000
     for i in range(0, len(obs), chunk):
